@@ -4,7 +4,9 @@
           obs [announced item count (2 bytes); one string per item header received:
                path, is-folder, size prefix (flag + 4 bytes), data fork bytes received]
    op 2 folder upload     args target folder path, (path, is-folder, data)*
-          obs [server's answer per item (1 byte 0 next | 1 send | 2 resume | 9 failed, 4 bytes offset); tree afterwards] *)
+          obs [server's answer per item (1 byte 0 next | 1 send | 2 resume | 9 failed, 4 bytes offset); tree afterwards]
+   op 3 folder upload cut   args target, item index, bytes of that item's data delivered, (path, is-folder, data)*
+          obs [tree afterwards] *)
 From stdpp Require Import gmap.
 From Verif Require Import Base.Bytes Corr.Case Lib.Path FS.Namespace FS.Folder Corr.Run_C11.
 Local Open Scope N_scope.
@@ -52,6 +54,14 @@ Definition step (w : world) (o : dop) : world * list (list N) :=
       let w0 := match w !! t with Some _ => w | None => match t with [] => w | _ => <[t := NDir]> w end end in
       let '(w', rs) := upload w0 t its in
       (w', [concat (map enc_reply rs); snapshot w'])
+  | 3 => (* upload that dies inside the data of item number i (0-based), m bytes of it delivered *)
+      let t := dec_path (a 0 args) in
+      let i := N.to_nat (dbe (a 1 args)) in let m := N.to_nat (dbe (a 2 args)) in
+      let its := dec_items (List.length args) (skipn 3 args) in
+      let w0 := match w !! t with Some _ => w | None => match t with [] => w | _ => <[t := NDir]> w end end in
+      let '(w1, _) := upload w0 t (firstn i its) in
+      let w2 := match nth_error its i with Some it => upload_cut_step w1 t it m | None => w1 end in
+      (w2, [snapshot w2])
   | _ => (w, [])
   end.
 Fixpoint run (w : world) (ops : list dop) : list (list (list N)) :=
